@@ -473,6 +473,10 @@ func (sa *Application) timeoutPlaceholderProcessing() {
 					continue
 				}
 				pendingRelease = append(pendingRelease, alloc)
+				// a pending ask without placeholder data for its task group (real ask) has nothing to count
+				if _, ok := sa.placeholderData[alloc.taskGroupName]; !ok {
+					continue
+				}
 				sa.placeholderData[alloc.taskGroupName].TimedOut++
 			}
 		}
